@@ -88,6 +88,8 @@ def edge_pool():
         {"k": "prior", "ids": [0], "om": _eye(3), "est": [0.5, -0.5, 0.1]},
         {"k": "prior", "ids": [1], "om": _eye(2), "est": [0.5, -0.5]},
         {"k": "tern", "ids": [0, 1, 2], "om": _eye(2), "est": [0.5, -0.5]},
+        {"k": "subodo", "ids": [0, 1], "om": _eye(3), "est": ps[6]},  # a SUBCLASS of the odometry edge with the same data as entry 0: a type difference
+        {"k": "sublm", "ids": [0, 1], "om": _eye(2), "est": ps[0], "off": ps[8], "off_id": 0},
         {"k": "scalar", "ids": [0, 1], "om": _eye(1), "est": 1.5},
         {"k": "scalar", "ids": [0, 1], "om": _eye(1), "est": 0.0},
     ]
@@ -140,9 +142,21 @@ def mk_vertex(d):
     return I.Vertex(d["id"], mk_pose(d["pose"]))
 
 
+class _SubOdo(I.EdgeOdometry):
+    pass
+
+
+class _SubLm(I.EdgeLandmark):
+    pass
+
+
 def mk_edge(d):
     om = np.array(d["om"], dtype=float)
     k = d["k"]
+    if k == "subodo":
+        return _SubOdo(list(d["ids"]), om, mk_pose(d["est"]))
+    if k == "sublm":
+        return _SubLm(list(d["ids"]), om, mk_pose(d["est"]), offset=mk_pose(d["off"]), offset_id=d.get("off_id"))
     if k == "odo":
         return I.EdgeOdometry(list(d["ids"]), om, mk_pose(d["est"]))
     if k == "lm":
@@ -331,6 +345,19 @@ def _eval(case):
             calls += 1
             if r2 != "T":
                 msgs.append("%s.equals(deepcopy) -> %s %s" % (fam, r2, err2 or ""))
+            if fam == "pose":
+                xc = x.copy()
+                for a_, b_, w in ((x, xc, "p.equals(p.copy())"), (xc, x, "p.copy().equals(p)")):
+                    r3, err3 = _call(a_, b_, tol)
+                    calls += 1
+                    if r3 != "T":
+                        msgs.append("%s -> %s %s for %r" % (w, r3, err3 or "", dx))
+            if fam == "vertex":
+                xv = I.Vertex(x.id, x.pose.copy())
+                r3, err3 = _call(x, xv, tol)
+                calls += 1
+                if r3 != "T":
+                    msgs.append("vertex.equals(vertex rebuilt from pose.copy()) -> %s %s for %r" % (r3, err3 or "", dx))
         return msgs, {"classes": classes, "outcome": "pair:%s:%s" % (fam, r), "calls": calls, "nontrivial": not same}
     # single-component perturbation
     dx = case["x"]
